@@ -411,7 +411,7 @@ class ktensor:
 
         # extract weights from input vector if present
         if contains_weights:
-            weights = data[0:num_components].copy()
+            weights = data[0:num_components].copy().reshape(-1)
             shift = num_components
         else:
             weights = np.ones(num_components)
